@@ -455,3 +455,23 @@ def taint_flow(prog, fv, is_source, rounds=12, call_is_source=None):
         if len(tainted) == before:
             break
     return tainted, root, refs
+
+
+def body_holding(prog, key, call_rx):
+    """The coroutine body of async fn `key` -- or of a new async helper it awaits (the frame loop moved into `rx_frames(..).await`)
+    -- that contains a call matching call_rx; the main body when none does."""
+    rx = re.compile(call_rx) if isinstance(call_rx, str) else call_rx
+    main = view(prog, prog.body_key(key))
+    if main.calls(rx):
+        return main
+    seen, work = set(), list(getattr(prog, "async_helpers", {}).get(key, []))
+    while work:
+        h = work.pop()
+        if h in seen:
+            continue
+        seen.add(h)
+        hv = view(prog, prog.body_key(h))
+        if hv.calls(rx):
+            return hv
+        work += list(prog.async_helpers.get(h, []))
+    return main
